@@ -335,6 +335,12 @@ NoResurrection == BackLive => (DOMAIN streams' \subseteq DOMAIN pre.streams /\ D
 \* replay of a valid log never fails (Server.Apply would panic)
 NoApplyError == obs'.err = ""
 
+\* whatever its history (live, replayed, restored), a group holds a VALID assignment
+\* (C12: exactly one subscribed holder per partition, nothing foreign, no ghost partitions)
+GroupsValid == \A g \in GroupIds : groups[g].exists =>
+   /\ NoForeign(groups[g])
+   /\ \A s \in DOMAIN streams : ExactlyOneFor(groups[g], s, Len(streams[s].parts)) /\ AssignedExistFor(groups[g], s, Len(streams[s].parts))
+
 \* state invariants
 NoTombLive == mode = "live" => Tombs = {}
 GroupsFine == \A g \in GroupIds : groups[g].exists => (NoForeign(groups[g]) /\ CountersOK(groups[g]) /\ HeapsOK(groups[g]))
